@@ -4,6 +4,7 @@ package govc
 // type invariants of symbolic values.
 
 import (
+	"os"
 	"fmt"
 	"go/types"
 	"math/big"
@@ -84,12 +85,52 @@ func (x *Exec) rangeAxiom(key string, t *Term) {
 		lo, hi = c.Int(0), c.Add(c.Pow2(47), c.Int(1))
 	case "arr":
 		lo, hi = c.Int(0), c.Add(x.curAlloc, c.Int(1))
-	case "tag", "val":
+	case "val":
+		// interface payloads are allocated pointers when every implementation is a pointer type
+		it, ok := types.Unalias(l.Type).Underlying().(*types.Interface)
+		if !ok || it.NumMethods() == 0 || isErrorType(l.Type) {
+			return
+		}
+		impls := x.W.Implementers(it)
+		if len(impls) == 0 {
+			return
+		}
+		for _, im := range impls {
+			if _, isPtr := im.Underlying().(*types.Pointer); !isPtr {
+				return
+			}
+		}
+		lo, hi = c.Int(0), c.Add(x.curAlloc, c.Int(1))
+		// the payload's dynamic type is the interface's tag (paired component: .tag)
+		allDyn := true
+		for _, im := range impls {
+			if _, ok := x.dynTag(im); !ok {
+				allDyn = false
+			}
+		}
+		if allDyn && strings.HasSuffix(key, ".val") {
+			pre := strings.TrimSuffix(key, ".val")
+			x.pendingDyn[pre+"#val"] = t
+			if tg, ok := x.pendingDyn[pre+"#tag"]; ok {
+				x.dynIfaceAxiom(pre, tg, t)
+			}
+		}
+	case "tag":
+		if strings.HasSuffix(key, ".tag") {
+			pre := strings.TrimSuffix(key, ".tag")
+			x.pendingDyn[pre+"#tag"] = t
+			if vl, ok := x.pendingDyn[pre+"#val"]; ok {
+				x.dynIfaceAxiom(pre, t, vl)
+			}
+		}
 		return
 	default:
 		switch types.Unalias(l.Type).Underlying().(type) {
 		case *types.Pointer, *types.Map, *types.Chan:
 			lo, hi = c.Int(0), c.Add(x.curAlloc, c.Int(1))
+			if k, ok := x.dynTag(l.Type); ok {
+				x.dynAxiom(key, t, k, nil)
+			}
 		}
 		if lo == nil {
 			b, isB := types.Unalias(l.Type).Underlying().(*types.Basic)
@@ -116,7 +157,12 @@ func (x *Exec) rangeAxiom(key string, t *Term) {
 
 func (x *Exec) heapSet(st *State, key string, t *Term) {
 	st.Heap[key] = t
-	x.noteWrite(key)
+	// the address is recovered from the outermost store
+	var addr *Term
+	if t.op == "store" && len(t.args) == 3 {
+		addr = t.args[1]
+	}
+	x.noteWriteAt(key, addr)
 }
 
 // ---- struct fields ----
@@ -233,7 +279,37 @@ func (x *Exec) allocAddr(st *State) *Term {
 func (x *Exec) newStruct(st *State, T types.Type) *Term {
 	p := x.allocAddr(st)
 	x.zeroStructAt(st, T, p)
+	if k, ok := x.dynTag(types.NewPointer(T)); ok {
+		x.assume(st, x.C.Eq(x.dyntype(p), k))
+	}
 	return p
+}
+
+// dyntype(p): the struct type allocated at address p. Objects of different
+// types never share an address; structs used by value inside other structs
+// share their parent's address and are therefore exempt.
+func (x *Exec) dyntype(p *Term) *Term {
+	return x.C.Apply(x.C.Fun("dyntype", []Sort{SInt}, SInt), p)
+}
+
+// dynTag: the tag constant for pointer type pt, if objects of its element type are only ever allocated stand-alone.
+func (x *Exec) dynTag(pt types.Type) (*Term, bool) {
+	p, ok := types.Unalias(pt).Underlying().(*types.Pointer)
+	if !ok || os.Getenv("GOVC_NODYN") != "" {
+		return nil, false
+	}
+	el := p.Elem()
+	if structOf(el) == nil || isOpaqueInt(el) {
+		return nil, false
+	}
+	n, ok := types.Unalias(el).(*types.Named)
+	if !ok || x.W.usedByValue(n) {
+		return nil, false
+	}
+	if n.Obj().Pkg() == nil || !x.W.IsRepoPkg(n.Obj().Pkg()) {
+		return nil, false
+	}
+	return x.C.Int(int64(x.W.TypeTag(types.NewPointer(el)))), true
 }
 
 func (x *Exec) zeroStructAt(st *State, T types.Type, p *Term) {
@@ -406,7 +482,11 @@ func (x *Exec) typeInv(st *State, v Val, t types.Type) *Term {
 		}
 	case *types.Pointer, *types.Map, *types.Chan:
 		if vi, ok := v.(VInt); ok {
-			return c.And(c.Le(c.Int(0), vi.T), c.Le(vi.T, st.Alloc))
+			r := c.And(c.Le(c.Int(0), vi.T), c.Le(vi.T, st.Alloc))
+			if k, ok := x.dynTag(t); ok {
+				r = c.And(r, c.Implies(c.Ne(vi.T, c.Int(0)), c.Eq(x.dyntype(vi.T), k)))
+			}
+			return r
 		}
 	case *types.Signature:
 		if vi, ok := v.(VInt); ok {
@@ -432,6 +512,9 @@ func (x *Exec) typeInv(st *State, v Val, t types.Type) *Term {
 					alt := c.Eq(i.Tag, c.Int(int64(x.W.TypeTag(im))))
 					if _, isPtr := im.Underlying().(*types.Pointer); isPtr {
 						alt = c.And(alt, c.Lt(c.Int(0), i.Val), c.Le(i.Val, st.Alloc))
+						if k, ok := x.dynTag(im); ok {
+							alt = c.And(alt, c.Eq(x.dyntype(i.Val), k))
+						}
 					}
 					alts = append(alts, alt)
 				}
@@ -490,4 +573,40 @@ func (x *Exec) slot(off, idx *Term) *Term {
 		x.assumeGlobal(c.Forall([]*Term{o, j}, c.Eq(app, c.Add(o, j)), []*Term{app}))
 	}
 	return c.Apply(f, off, idx)
+}
+
+// dynAxiom: every non-nil pointer stored in component t points to an object of type tag k.
+func (x *Exec) dynAxiom(key string, t *Term, k *Term, _ *Term) {
+	c := x.C
+	p := c.NewBound("p", SInt)
+	if strings.HasPrefix(key, "A!") || strings.HasPrefix(key, "M!") && !strings.HasSuffix(key, ".len") {
+		i := c.NewBound("i", SInt)
+		sel := c.Select(c.Select(t, p), i)
+		x.assumeGlobal(c.Forall([]*Term{p, i}, c.Implies(c.Ne(sel, c.Int(0)), c.Eq(x.dyntype(sel), k)), []*Term{sel}))
+		return
+	}
+	sel := c.Select(t, p)
+	x.assumeGlobal(c.Forall([]*Term{p}, c.Implies(c.Ne(sel, c.Int(0)), c.Eq(x.dyntype(sel), k)), []*Term{sel}))
+}
+
+// dynIfaceAxiom: for an interface-typed component pair (tag, val) whose
+// implementations are all stand-alone pointer types: dyntype(val) == tag.
+func (x *Exec) dynIfaceAxiom(prefix string, tagT, valT *Term) {
+	c := x.C
+	k := fmt.Sprintf("%d|%d", tagT.id, valT.id)
+	if x.dynDone[k] {
+		return
+	}
+	x.dynDone[k] = true
+	p := c.NewBound("p", SInt)
+	if strings.HasPrefix(prefix, "A!") || strings.HasPrefix(prefix, "M!") {
+		i := c.NewBound("i", SInt)
+		sv := c.Select(c.Select(valT, p), i)
+		stg := c.Select(c.Select(tagT, p), i)
+		x.assumeGlobal(c.Forall([]*Term{p, i}, c.Implies(c.Ne(stg, c.Int(0)), c.Eq(x.dyntype(sv), stg)), []*Term{sv}, []*Term{stg}))
+		return
+	}
+	sv := c.Select(valT, p)
+	stg := c.Select(tagT, p)
+	x.assumeGlobal(c.Forall([]*Term{p}, c.Implies(c.Ne(stg, c.Int(0)), c.Eq(x.dyntype(sv), stg)), []*Term{sv}, []*Term{stg}))
 }
